@@ -10,7 +10,17 @@ Correspondence: real SFTPAttrs/SFTPName codecs over all flag subsets per version
       wrong-type/short replies; the client's reply parsing on every truncation of every reply kind.
 Oracle: the property itself on the real code (one reply per request with its id and a protocol-legal type,
       malformed -> status and the session goes on, each concurrent caller gets its own answer, attribute round trip,
-      encode never emits a flag its own version rejects).
+      encode never emits a flag its own version rejects, local errors -> documented status codes).
+
+Observations made while building (none contradicts the property as stated; see the builder's report):
+  O1  `_process_open/setstat/fsetstat/lsetstat` format the decoded attributes eagerly for a debug message
+      (`hide_empty(attrs)` -> `time.ctime`), which raises OSError/OverflowError for a time beyond the platform's
+      calendar (>= ~6.7e16 s): a well-formed request is then answered FX_FAILURE before any handle check or
+      application call.  Request attributes in the server runs keep times below 2^40; not modelled.
+  O2  trailing bytes after a complete body are rejected (FX_BAD_MESSAGE) below SFTPv6 by every handler except
+      REALPATH, LINK, BLOCK and UNBLOCK, which ignore them in every version (model: `Tail.never`).
+  O3  a reply body the client cannot parse reaches the caller as a bare `PacketDecodeError` (a `ValueError`), and a
+      READLINK answered with zero names as `IndexError`, rather than as an `SFTPError` (model: `Outcome.packetDecode`).
 """
 
 from __future__ import annotations
@@ -61,6 +71,10 @@ TRUSTED = [
 ASSUMPTIONS = [
     'fewer than 2^32 requests are outstanding at once (request ids do not wrap onto a live id)',
     'the application-level SFTPServer raises only Exception subclasses (not BaseException such as CancelledError)',
+    'attribute times inside server requests are below the platform calendar limit of time.ctime (observation O1: '
+    'beyond it the debug-message formatting raises and the request is answered FX_FAILURE)',
+    'a packet shorter than 5 bytes (no type/id) cannot be answered and ends the session: this is outside '
+    '"malformed body", which presupposes a request id',
 ]
 
 
@@ -332,7 +346,7 @@ def sreq_line(rec: Dict[str, Any]) -> str:
 
 
 def corr_server(ctx: Ctx, res: CorrResult, hist: Hist) -> List[Dict[str, Any]]:
-    records = run_server(ctx, "server", ctx.n(1, 4))
+    records = run_server(ctx, "server", ctx.n(1, 8))
     _SERVER_RECORDS[:] = records
     lines = [sreq_line(r) for r in records]
     out = ctx.model(DRIVER, lines)
@@ -413,6 +427,7 @@ class ClientRig:
     def __init__(self) -> None:
         self.hub = L.PeerHub()
         self.conn: Any = None
+        self.hangs = 0
 
     async def open(self) -> None:
         self.conn, _s, _h = await pair.make_pair(server_factory=self.hub.server_factory(), server_opts=dict(encoding=None))
@@ -459,8 +474,10 @@ class ClientRig:
         outs = []
         for t in tasks:
             try:
-                outs.append(await asyncio.wait_for(t, wait))
+                # a caller that never completes costs wall time: be patient only for the first few
+                outs.append(await asyncio.wait_for(t, wait if self.hangs < 6 else 0.15))
             except asyncio.TimeoutError:
+                self.hangs += 1
                 outs.append('hang')
         sc.outcomes = outs
         try:
@@ -484,9 +501,8 @@ def gen_client_scenarios(ctx: Ctx, rng: Any) -> List[ClientScenario]:
     max_k = ctx.n(4, 5)
     for k in range(1, max_k + 1):
         perms = list(itertools.permutations(range(k)))
-        if k >= 4 and ctx.n(0, 1) == 0:
-            perms = perms[::1]          # all 24 orders for k = 4 also in the quick tier
-        if k == 5:
+        # all 24 orders for k = 4 also in the quick tier; k = 5 (120 orders) only when thorough/escalated
+        if k == 5 and not ctx.tier == 'thorough':
             perms = [p for p in perms if rng.random() < 0.25]
         for pi in perms:
             v = rng.choice(L.VERSIONS)
@@ -876,6 +892,63 @@ def oracle_server(ctx: Ctx, res: OracleResult, hist: Hist, seen: set, prior: Opt
                         {'kind': 'server-survive', 'v': v, 'packet': bad})
 
 
+# the documented local-error -> status mapping (SFTP drafts' meaning of each code), and the rule that a peer
+# never sees a code its negotiated version does not define
+DOC_ERRNO = {'ENOENT': 2, 'EACCES': 3, 'EEXIST': 11, 'EROFS': 12, 'ENOSPC': 14, 'EDQUOT': 15, 'ENOTEMPTY': 18,
+             'ENOTDIR': 19, 'ENAMETOOLONG': 20, 'EILSEQ': 20, 'ELOOP': 21, 'EINVAL': 23, 'EISDIR': 24}
+VERSION_END = {3: 8, 4: 13, 5: 17, 6: 31}
+
+
+def doc_status(code: int, v: int) -> int:
+    if code == 19 and v < 6:
+        return 2                    # "not a directory" is reported as "no such file" before SFTPv6
+    if code <= 31 and code > VERSION_END[v]:
+        return 4
+    return code
+
+
+def oracle_error_codes(ctx: Ctx, res: OracleResult, hist: Hist, seen: set) -> None:
+    import errno as E
+    rng = ctx.subrng('oracle-errors')
+    cases: List[Tuple[int, Tuple[str, int], int, str]] = []
+    for v in L.VERSIONS:
+        for name, code in DOC_ERRNO.items():
+            cases.append((v, ('os', getattr(E, name)), doc_status(code, v), name))
+        for other in ['EPERM', 'EIO', 'EBADF', 'EBUSY', 'EXDEV', 'EMFILE']:
+            cases.append((v, ('os', getattr(E, other)), 4, other))
+        for code in range(1, 32):
+            cases.append((v, ('sftp', code), doc_status(code, v), 'SFTPError(%d)' % code))
+        cases.append((v, ('notimpl', 0), 8, 'NotImplementedError'))
+        cases.append((v, ('other', 0), 4, 'ZeroDivisionError'))
+
+    async def go() -> List[str]:
+        out = []
+        sr = ServerRun(rng)
+        await sr.open_conn()
+        cur = None
+        for v, exc, _want, _name in cases:
+            if cur != v:
+                await sr.new_session(v)
+                cur = v
+            key = rng.choice([13, 14, 15, 17, 18, 19])
+            body = L.valid_body(rng, key, v, b'', b'')
+            rec = await sr.send(v, key, L.request_packet(key, sr.pktid(), body), L.Script(exc=exc), body, 'error-map')
+            out.append(rec['observed'])
+        sr.conn.abort()
+        await pair.settle(10)
+        return out
+    for (v, exc, want, name), obs in zip(cases, pair.run(go(), timeout=600)):
+        res.evaluations += 1
+        hist.hit('oracle-server:error-map')
+        ws = obs.split(' ')
+        got = int(ws[4]) if len(ws) >= 5 and ws[3] == 'status' else None
+        if got != want:
+            add_failure(res, seen, f'server-local-error-wrong-status:{name}:v{v}',
+                        f'v{v}: application raised {name}; documented status is {want}, the server answered {obs}',
+                        {'kind': 'server-error', 'v': v, 'exc': list(exc), 'want': want})
+    res.nontrivial += len(cases)
+
+
 def judge_client_scenario(sc: ClientScenario) -> Optional[Tuple[str, str]]:
     """(signature, description) if the scenario shows a caller without its own answer"""
     k = len(sc.kinds)
@@ -983,6 +1056,7 @@ def oracle(ctx: Ctx) -> OracleResult:
     seen: set = set()
     oracle_codec(ctx, res, hist)
     oracle_server(ctx, res, hist, seen, _SERVER_RECORDS)
+    oracle_error_codes(ctx, res, hist, seen)
     oracle_client(ctx, res, hist, seen)
     res.histogram = dict(hist)
     res.samples = [{'oracle': 'attrs round trip / flag validity on real SFTPAttrs'},
@@ -1053,6 +1127,23 @@ def replay(ctx: Ctx, rep: Dict[str, Any]) -> List[Failure]:
         if kind == 'server-survive' and (len(recs) < 2 or recs[1]['observed'] != 'reply 101 4242 status 0'):
             res.failures.append(Failure('server-session-ends-on-malformed-request', str([x['observed'] for x in recs]), r))
         return res.failures
+    if kind == 'server-error':
+        v = int(r['v'])
+
+        async def go2() -> str:
+            sr = ServerRun(ctx.subrng('replay'))
+            await sr.open_conn()
+            await sr.new_session(v)
+            body = String(b'/x')
+            rec = await sr.send(v, 13, L.request_packet(13, 7, body), L.Script(exc=(r['exc'][0], int(r['exc'][1]))),
+                                body, 'error-map')
+            sr.conn.abort()
+            await pair.settle(10)
+            return rec['observed']
+        obs = pair.run(go2(), timeout=60)
+        if obs != f"reply 101 7 status {r['want']}":
+            return [Failure('server-local-error-wrong-status', obs, r)]
+        return []
     if kind == 'client':
         sc = ClientScenario.from_json(r['scenario'])
         run_client_scenarios([sc])
